@@ -306,7 +306,20 @@ pub fn generate(rng: &mut Rng, property: &str, deep: bool) -> Scn {
     let unanimated: Vec<usize> = (0..NUM_STATES).filter(|s| !spec.animated(*s)).collect();
     let animated: Vec<usize> = (0..NUM_STATES).filter(|s| spec.animated(*s)).collect();
 
-    while ops.len() < tk.n_ops {
+    // A marathon run continues the finished trace with a long tail (hundreds to thousands of
+    // operations in one animator's life; in half of them with rare events, i.e. hundreds of frames
+    // inside one state). The tail is drawn from a stream of its own, forked from the last value
+    // of the main stream, so the scenarios of all other runs - and the first part of this one -
+    // are what they were before marathon runs existed.
+    let mut target_ops = tk.n_ops;
+    let mut tail_rng: Option<Rng> = None;
+    let mut repartition_seed = 0u64;
+    loop {
+    while ops.len() < target_ops {
+        let rng: &mut Rng = match tail_rng.as_mut() {
+            Some(r) => r,
+            None => &mut *rng,
+        };
         // ---- user process: events that arrived since the last frame -------------------------
         let p_event = if just_ended { tk.p_event.max(0.5) } else { tk.p_event };
         if rng.chance(p_event) {
@@ -455,14 +468,32 @@ pub fn generate(rng: &mut Rng, property: &str, deep: bool) -> Scn {
             .unwrap_or(false);
         just_ended = now_ended && !was_ended;
     }
-    ops.truncate(tk.n_ops.max(1));
+    ops.truncate(target_ops.max(1));
+    if tail_rng.is_some() {
+        break;
+    }
+    repartition_seed = rng.next_u64() >> 1;
+    if repartition_seed % MARATHON_ONE_IN == 0 {
+        let mut r = Rng::new(repartition_seed ^ 0x6d61_7261_7468_6f6e);
+        target_ops = ops.len() + r.range(250, if property == "C06" || property == "C20" { 700 } else if deep { 4000 } else { 1500 }) as usize;
+        if r.chance(0.5) {
+            tk.p_event = 0.004;
+        }
+        tail_rng = Some(r);
+    } else {
+        break;
+    }
+    }
     Scn {
         spec,
         ops,
         grid: knobs.grid,
-        repartition_seed: rng.next_u64() >> 1,
+        repartition_seed,
     }
 }
+
+/// One run in this many is a marathon run (see `generate`).
+pub const MARATHON_ONE_IN: u64 = 97;
 
 // ---------------------------------------------------------------------------------------------
 // Shrinking
